@@ -224,7 +224,7 @@ def run(ctx):
             hists = [ctx.replay["case"]["history"]]
         else:
             hists = [corpus_empty_write(), corpus_relocation()]
-            n = ctx.budget(120, 3000)
+            n = ctx.budget(60, 3000)
             for i in range(n):
                 far = ctx.rng.choice([3000, 3000, 20000, 20000, 150000]) if i % 10 else 1200000
                 hists.append(gen_history(ctx.rng, ctx.rng.choice([5, 15, 40, 40]), far, ctx.rng.choice([0, 1, 2, 4, 5, 7, 10])))
